@@ -397,6 +397,11 @@ func runC06(e *Env) {
 				e.R.Inconcl(c.ID + ": watchdog fired, canary failed")
 				return
 			}
+			if o2 := runC06Case(e, lp, c); !o2.res.Hung {
+				e.R.Count("hang_not_reproduced")
+				e.R.Inconcl(c.ID + ": the bounded-progress rule fired once, and the same case run again on fresh connections did not stall")
+				return
+			}
 			e.R.Violate(c06Key(c, o)+":hang", "resumed transfer from tampered state neither succeeded nor failed within the bounded-progress window", c, map[string]any{"result": res.Summary(), "goroutines": res.HangDump})
 			return
 		}
